@@ -16,6 +16,9 @@ CLAIMED = {
  "C11": ("go/cfg ordering, gate and dominance rules on eval.RunDSL; loop-exit and dispatch tables; SSA path table of Record",
          "Static necessary conditions only: global phase barrier and error gates between phases on every path of RunDSL, whole-list loops, re-reading of roots registered during execution, no early exit from the set runners, interface/method dispatch pairing, dependency callbacks that depend on their argument. Does not decide that Roots() is a topological sort with cycle detection for every graph.",
          "DESIGN.md §3 C11"),
+ "C12": ("type-assertion guard rule, variadic-length dataflow (lower-bound abstract interpretation over go/cfg), nil-returning-lookup dereference rule with edge-dominance facts, validator wiring / loop-exit / stale-flag / recursion-guard lints",
+         "Static necessary conditions only, over every DSL function and expr validator: no unguarded single-value assertion, no constant index of a variadic list beyond its proven length, no dereference of a nil-returning lookup or nil-compared pointer without a dominating test, validators wired with results consumed, validation loops without silent early exit, search flags reset per iteration, recursion guards passed through. Does not prove termination or absence of all panics.",
+         "DESIGN.md §3 C12"),
  "C13": ("ownership/aliasing rule on the dup family, type-switch and Kind tables, dominance of cycle memos, sort-comparator and map-order lints, parameter pass-through, SSA path tables",
          "Static necessary conditions only: no structural aliasing in the dup family, exhaustive kind tables, memo-before-recursion, order-free hashing (comparators, map ranges), Equal defined through Hash with one flag triple, flags passed through every recursive hash call, Hash's documented flag semantics on hashUserType. Does not decide equality of copy and original on all graphs nor hash collisions.",
          "DESIGN.md §3 C13"),
